@@ -65,6 +65,9 @@ func TestC20(t *testing.T) {
 	r := mon.Start(t, "C20")
 	defer r.Close()
 	R := r.Pick(4, 10)
+	// a link system of the same process that its owner reconfigured must not change what others do
+	decoy := store.New().LinkSystem(true)
+	decoy.KnownReifiers["unixfs-preload"] = unixfsnode.Reify
 	for _, f := range fileFixtures(newRand(r.SeedFor("fixtures")), !r.Quick()) {
 		f := f
 		r.Case("file/"+f.Name, map[string]any{"fixture": f.Name, "root": f.Root.String()}, func(c *mon.Case) {
